@@ -13,10 +13,13 @@ SameLen(a, b) == Len(a) = Len(b)
 
 PairsFails(thr, ev) ==
   LET n == Len(ev.d) IN
-  IF ~(AllFinV(ev.d) /\ AllFinV(ev.dec) /\ IsFin(ev.thr) /\ SameLen(ev.d, ev.pred) /\ SameLen(ev.d, ev.dec))
+  IF ~(AllFinV(ev.d) /\ AllFinV(ev.dec) /\ ev.thr[1] # 2 /\ SameLen(ev.d, ev.pred) /\ SameLen(ev.d, ev.dec))
   THEN {"C04.pairs_outputs_wellformed"}
   ELSE CF("C04.threshold_unchanged_by_queries", ev.thr = thr)
-       \cup CF("C04.pairs_predict", \A i \in 1..n : ev.pred[i] = CD!PairPredict(ev.d[i], thr))
+       \* a stored threshold of -infinity / +infinity (what calibration stores for "reject all" / "accept all")
+       \* compares as such: distance <= -inf never, distance <= +inf always
+       \cup CF("C04.pairs_predict", \A i \in 1..n : ev.pred[i] =
+                 (IF thr[1] = -3 THEN -1 ELSE IF thr[1] = 3 THEN 1 ELSE CD!PairPredict(ev.d[i], thr)))
        \cup CF("C04.pairs_decision_is_negated_distance", \A i \in 1..n : ev.dec[i] = CD!PairDecision(ev.d[i]))
        \cup (IF ev.has_score
              THEN CF("C04.pairs_score_is_auc",
